@@ -133,7 +133,8 @@ var props = map[string]*Prop{
 		Bounds:      map[string]string{"quick": "preemption bound 2 (1x1) / 1 (others)", "thorough": "unbounded (1x1) / preemption bound 3 (others), cap 400000 executions per scenario"},
 		Units: []Unit{
 			{Name: "pebble-interleavings", Pkg: "pkg/storage/pebbledb", Test: "TestVerifC11", Tags: []string{"verif_sched"}, Shards: sh(16, 16), GoMaxProcs: 2, TimeoutS: sh(900, 3600), DeadlineS: sh(300, 2400),
-				Profile: ovgen.Profile{Imports: []ovgen.ImportRewrite{
+				// (ScanBatch ranges over the map of functions: the order is a choice of the explorer, not of the runtime)
+				Profile: ovgen.Profile{MapRanges: []string{"pkg/storage/pebbledb"}, Imports: []ovgen.ImportRewrite{
 					{File: "pkg/storage/pebbledb/store.go", Map: map[string]string{"sync": ovgen.ShimBase + "vsync", "sync/atomic": ovgen.ShimBase + "vatomic", "github.com/cockroachdb/pebble": ovgen.ShimBase + "vpebble"}},
 				}}},
 			{Name: "json-interleavings", Pkg: "pkg/storage/jsondb", Test: "TestVerifC11JSON", Shards: sh(4, 4), GoMaxProcs: 2, TimeoutS: sh(900, 3600),
